@@ -68,6 +68,8 @@ def run(pid, tier, args):
             if c["variant"] in ("slice", "slicegrp") and want is not None:
                 seven = {"float32": "f40e00000", "float64": "f401c000000000000"}.get(c["kind"], "7")
                 want = "[%s,%s]" % (seven, want)
+            if c["shape"] == "multifirst" and want is not None:
+                want = {"float32": "f40e00000", "float64": "f401c000000000000"}.get(c["kind"], "7")   # the last capture is kept
             if want is None:
                 n_fail += 1
                 if r != "fail conv ":
